@@ -117,7 +117,7 @@ def tsan(ctx):
 
 
 def run(ctx):
-    ctx.extract(["c12bounds", "c12sharing", "c12instr"])
+    ctx.extract(["c12bounds", "c12sharing", "c12instr", "c12globals"])
     ctx.prove(PROPS, extra_modules=["RotoV.Lemmas.Conc", "RotoV.Model.Conc", "RotoV.Lemmas.ConcShare", "RotoV.Model.ConcShare",
                                      "RotoV.Lemmas.ConcExec", "RotoV.Model.ConcExec", "RotoV.Model.ConcInstr"])
     if ctx.build_harness("c12"):
